@@ -63,7 +63,101 @@ namespace
     struct GSinkOnly { static constexpr auto name = "c06s_g_sink_only"; static void compose(Wiring &w, Port<TS<Int>> x) { wire<InnerSink>(w, x); } };
     struct ErrSink { static constexpr auto name = "c06s_err_sink"; static void eval(In<"e", TS<NodeError>> e) { (void)e; } };
 
+    // higher-order operators called twice on the same input with DIFFERENT wired functions (a scalar of function type): distinct nodes
+    struct PlusTwo { static constexpr auto name = "c06s_plus_two"; static void eval(In<"x", TS<Int>> x, Out<TS<Int>> out) { out.set(x.value() + 2); } };
+    struct FOne { static constexpr auto name = "c06s_f_one"; static Port<TS<Int>> compose(Wiring &w, Port<TS<Int>> x) { return wire<PlusOne>(w, x); } };
+    struct FTwo { static constexpr auto name = "c06s_f_two"; static Port<TS<Int>> compose(Wiring &w, Port<TS<Int>> x) { return wire<PlusTwo>(w, x); } };
+    using TryIntResult = UnNamedTSB<Field<"exception", TS<NodeError>>, Field<"out", TS<Int>>>;
+    struct TryOut
+    {
+        static constexpr auto name = "c06s_try_out";
+        static void eval(In<"r", TryIntResult, InputActivity::Active, InputValidity::Unchecked> r, Scalar<"id", Int> id, DateTime now)
+        {
+            auto field = r.template field<"out">();
+            if (field.valid() && field.modified()) g->log[static_cast<int>(id.value())].push_back("t" + std::to_string(rel(now)) + "=" + std::to_string(static_cast<long>(field.value())));
+        }
+    };
+    struct DictSrc   // one key (1) carrying the source value
+    {
+        static constexpr auto name = "c06s_dict_src";
+        static constexpr bool schedule_on_start = true;
+        static void eval(NodeScheduler sched, DateTime now, Out<tsshapes::DictI> out)
+        {
+            const long c = rel(now);
+            if (c < g->cycles && (g->ticks[static_cast<std::size_t>(c)] & 1)) out.set(Int{1}, Int{10 * (c + 1) + 1});
+            if (c + 1 < g->cycles) sched.schedule(MIN_TD);
+        }
+    };
+    struct DictSink
+    {
+        static constexpr auto name = "c06s_dict_sink";
+        static void eval(In<"d", tsshapes::DictI> d, Scalar<"id", Int> id, DateTime now)
+        {
+            for (auto &&[key, child] : d.modified_items()) g->log[static_cast<int>(id.value())].push_back("t" + std::to_string(rel(now)) + "=" + std::to_string(static_cast<long>(child.value())));
+        }
+    };
+
     struct Outcome { std::optional<std::string> violation; std::string sig, cls; bool nontrivial{false}; };
+
+    // desc: F|<form><order>|<tick masks>   form: e erased try_except(fn, x), m map_(fn, dict) ; order 0: F then G, 1: G then F
+    Outcome run_fn_twins(const std::string &desc)
+    {
+        Outcome out;
+        auto parts = split(desc, '|');
+        const char form = parts.at(1)[0]; const bool swapped = parts.at(1)[1] == '1';
+        Run run; for (char ch : parts.at(2)) run.ticks.push_back(ch - '0'); run.cycles = static_cast<int>(run.ticks.size());
+        std::string exc;
+        g = &run;
+        try
+        {
+            Wiring w;
+            if (form == 'e')
+            {
+                auto x = wire<SrcI<0>>(w);
+                for (int k = 0; k < 2; ++k)
+                {
+                    const bool one = (k == 0) != swapped;
+                    auto r = one ? wire<stdlib::try_except>(w, fn<FOne>(), x).template as<TryIntResult>() : wire<stdlib::try_except>(w, fn<FTwo>(), x).template as<TryIntResult>();
+                    wire<TryOut>(w, r, Int{one ? 1 : 2});
+                }
+            }
+            else
+            {
+                auto d = wire<DictSrc>(w);
+                for (int k = 0; k < 2; ++k)
+                {
+                    const bool one = (k == 0) != swapped;
+                    auto m = one ? wire<stdlib::map_>(w, fn<FOne>(), d).template as<tsshapes::DictI>() : wire<stdlib::map_>(w, fn<FTwo>(), d).template as<tsshapes::DictI>();
+                    wire<DictSink>(w, m, Int{one ? 1 : 2});
+                }
+            }
+            GraphBuilder gb = std::move(w).finish();
+            GraphExecutorBuilder eb;
+            eb.graph_builder(std::move(gb)).start_time(MIN_ST).end_time(MIN_ST + TimeDelta{run.cycles + 2});
+            auto ex = eb.make_executor();
+            ex.view().run();
+        }
+        catch (const std::exception &e) { exc = e.what(); }
+        g = nullptr;
+        if (!exc.empty()) { out.violation = "wiring or run threw: " + exc; return out; }
+        std::ostringstream sig;
+        for (int id : {1, 2})
+        {
+            std::vector<std::string> want;
+            for (int c = 0; c < run.cycles; ++c) if (run.ticks[static_cast<std::size_t>(c)] & 1) want.push_back("t" + std::to_string(c) + "=" + std::to_string(10 * (c + 1) + 1 + id));
+            const auto &got = run.log[id];
+            for (auto &s2 : got) sig << s2 << ",";
+            sig << "/";
+            if (!out.violation && got != want)
+            {
+                std::string gs, ws; for (auto &s2 : got) gs += s2 + " "; for (auto &s2 : want) ws += s2 + " ";
+                out.violation = std::string{form == 'e' ? "try_except" : "map_"} + " called with function +" + std::to_string(id) + " recorded [" + gs + "] but its own function gives [" + ws + "] (two calls that differ in the wired function are different nodes)";
+            }
+            if (!want.empty()) out.nontrivial = true;
+        }
+        out.sig = std::string{"F"} + parts.at(1) + sig.str();
+        return out;
+    }
 
     // desc: I|<form>|<tick masks>   form: i inlined twice, n nested_ twice, t try_except_<sink graph> twice
     Outcome run_inner(const std::string &desc)
@@ -111,6 +205,7 @@ namespace
     Outcome run_desc(const std::string &desc)
     {
         if (desc[0] == 'I') return run_inner(desc);
+        if (desc[0] == 'F') return run_fn_twins(desc);
         Outcome out;
         auto parts = split(desc, '|');
         const char op = parts.at(0)[0];
@@ -209,6 +304,19 @@ void verif_enumerate(verif::Ctx &ctx)
             if (r.nontrivial) ctx.nontriv(desc);
             ctx.count("inner_sink_cases");
             if (r.violation) ctx.violation(desc, *r.violation, r.cls.empty() ? "inner sink " + desc.substr(0, 3) + ": " + r.violation->substr(0, 40) : r.cls);
+        }
+    for (const char *form : {"e0", "e1", "m0", "m1"})
+        for (auto &h : hist)
+        {
+            if (!ctx.next_is_mine()) continue;
+            std::string hx; for (char ch : h) hx += (ch - '0') & 1 ? '1' : '0';
+            const std::string desc = std::string{"F|"} + form + "|" + hx;
+            ++ctx.evaluations; ++ctx.traces; ctx.transitions += static_cast<std::uint64_t>(T);
+            Outcome r = run_desc(desc);
+            ctx.state(r.sig);
+            if (r.nontrivial) ctx.nontriv(desc);
+            ctx.count("fn_twin_cases");
+            if (r.violation) ctx.violation(desc, *r.violation, "fn twins " + desc.substr(0, 4) + ": " + r.violation->substr(0, 40));
         }
     for (char op : std::string{"csan"})
     {
